@@ -32,13 +32,15 @@ open Signals
 -- generated facts ----------------------------------------------------------------------------------
 
 /-- Neither handler exits unconditionally, both store the flag, neither calls anything else; only SIGINT has an
-    exit under the prompt guard, with the interrupt code, and it releases the held locks first. -/
+    exit under the prompt guard, with the interrupt code, and it releases the held locks first — each only if the file
+    still carries this process's `pid:timestamp` (as does `LockFile::drop`). -/
 theorem handlers_only_set_flag :
     (∀ s, (genHandlers s).exitAlways = none ∧ (genHandlers s).setsFlag = true ∧ (genHandlers s).otherCalls = 0) ∧
     (genHandlers .int).exitUnderPrompt = some 130 ∧ (genHandlers .int).releasesLocks = true ∧
     (genHandlers .term).exitUnderPrompt = none ∧
-    Gen.SignalHandlers.extraHandlers = 0 ∧ Gen.SignalHandlers.heldLocksReleasable = true := by
-  refine ⟨?_, by decide, by decide, by decide, by decide, by decide⟩
+    Gen.SignalHandlers.extraHandlers = 0 ∧ Gen.SignalHandlers.heldLocksReleasable = true ∧
+    Gen.SignalHandlers.releaseChecksOwnership = true := by
+  refine ⟨?_, by decide, by decide, by decide, by decide, by decide, by decide⟩
   intro s; cases s <;> decide
 
 /-- The flag is read after the command returned and tested only in the `Ok` arm of the result match; the code is
